@@ -96,6 +96,20 @@ func genKernel(stream string, seed uint64, n int, path string) {
 					o.Line("rds", wire.Pick(r, []string{"sidecar", "router"}), wire.EncList(req))
 				}
 			}
+		case "gwdup":
+			k := 2 + r.Intn(6)
+			for j := 0; j < k; j++ {
+				var hs []string
+				seen := map[string]bool{}
+				for x, m := 0, 1+r.Intn(3); x < m; x++ {
+					h := wire.Pick(r, []string{"foo.com", "bar.com", "*.foo.com", "*", "a.example.org", "FOO.com"})
+					if !seen[h] {
+						seen[h] = true
+						hs = append(hs, h)
+					}
+				}
+				o.Line("cd", wire.EncList(hs), wire.Enc(wire.Pick(r, []string{"", "", "10.0.0.1", "10.0.0.2", "unix:///x/y"})))
+			}
 		case "lconflict":
 			// the whole finite domain, one case per incoming protocol (the seed only shuffles the order)
 			if i > len(lcProtos) {
@@ -269,10 +283,12 @@ func (a *answerWorld) gen(px *model.Proxy, typ string, names []string) (res mode
 // ---------------------------------------------------------------- exec / oracle
 
 type kernelRun struct {
-	lc     *lcWorld
-	vh     sets.String
-	known  sets.String
-	answer *answerWorld
+	gwTable    map[string]string
+	gwAccepted map[string]bool
+	lc         *lcWorld
+	vh         sets.String
+	known      sets.String
+	answer     *answerWorld
 	// oracle bookkeeping
 	keptLower map[string]bool
 	fail      string
@@ -294,6 +310,7 @@ func (k *kernelRun) step(f []string) (out string) {
 	switch f[0] {
 	case "case":
 		k.vh, k.known, k.keptLower, k.fail = sets.String{}, sets.String{}, map[string]bool{}, ""
+		k.gwTable, k.gwAccepted = nil, nil
 		return "ok"
 	case "known":
 		k.known = sets.New(wire.DecList(f[1])...)
@@ -350,6 +367,26 @@ func (k *kernelRun) step(f []string) (out string) {
 			}
 		}
 		return wire.EncList(kept)
+	case "cd":
+		hosts, bind := wire.DecList(f[1]), wire.Dec(f[2])
+		if k.gwTable == nil {
+			k.gwTable = map[string]string{}
+			k.gwAccepted = map[string]bool{}
+		}
+		dups := model.CheckDuplicates(hosts, bind, k.gwTable)
+		if len(dups) == 0 {
+			for _, h := range hosts {
+				if k.gwAccepted[bind+"\x00"+h] {
+					k.setFail("host-accepted-twice " + wire.Enc(bind) + " " + wire.Enc(h))
+				}
+				k.gwAccepted[bind+"\x00"+h] = true
+			}
+		}
+		var keys []string
+		for key := range k.gwTable {
+			keys = append(keys, key)
+		}
+		return "dups=" + wire.EncList(dups) + " table=" + wire.EncSet(keys)
 	case "lc":
 		if k.lc == nil {
 			k.lc = newLcWorld()
